@@ -69,4 +69,22 @@ PROPS = {
         'crosscheck_functions': [],
         'bounded': ['contracts.map_if:bounded_segment_is_valid'],
     },
+    'C19': {
+        'level': 'proof',
+        'functions': ['pyx12.error_html.escape_html_chars'],
+        'crosscheck_functions': ['pyx12.error_html.escape_html_chars'],
+        'lean': 'lemmas/Escape.lean',
+        'taint': {'file': 'pyx12/error_html.py', 'escape': ['escape_html_chars'],
+                  'clean_names': {'err_cde': 'error codes are program literals', 'cur_line': 'integer line number',
+                                  'self.eol': "constant '' set in __init__"},
+                  'clean_calls': {'time.strftime': 'clock, not input'},
+                  'allow': [('gen_info', ['info_str'], 'loop id and name come from the map (configuration), not from the input')],
+                  'replay': 'html_replay.py'},
+    },
+    'C08': {
+        'level': 'proof',
+        'functions': ['pyx12.xmlwriter.XMLWriter._escape_cont', 'pyx12.xmlwriter.XMLWriter._escape_attr'],
+        'crosscheck_functions': [],
+        'lean': 'lemmas/Escape.lean',
+    },
 }
